@@ -585,9 +585,13 @@ def gen_burst_case(rng, cid):
     nn = rng.randint(3, 4)
     nodes = [{"id": H(IDS[i]), "addr": H("10.0.0.%d:7000" % (i + 1))} for i in range(nn)]
     ops = []
+    # small states on purpose: everything a node knows fits into ONE datagram. A reply that has to be cut takes the nodes in the
+    # order of the digest, which the real code draws from a map - the outcome of such a history differs from run to run even with
+    # one-at-a-time delivery, and then there is nothing to compare a burst with
+    SV = ["", "v", "1", "2", "10", "w", "xy"]
     for n in range(nn):
-        for j in range(rng.randint(2, 9)):
-            ops.append({"op": "upsert", "n": n, "k": H("k%d-%d" % (n, j)), "v": H(rng.choice(VALS) + "#%d" % j)})
+        for j in range(rng.randint(2, 6)):
+            ops.append({"op": "upsert", "n": n, "k": H("k%d-%d" % (n, j)), "v": H(rng.choice(SV) + "#%d" % j)})
     for n in range(1, nn):
         ops.append({"op": "join", "a": n, "b": 0})
     for _ in range(rng.randint(1, 3)):
@@ -595,9 +599,9 @@ def gen_burst_case(rng, cid):
         others = [i for i in range(nn) if i != t]
         for n in range(nn):
             for j in range(rng.randint(0, 4)):
-                ops.append({"op": "upsert", "n": n, "k": H("k%d-%d" % (n, rng.randrange(12))), "v": H("w%d" % rng.randrange(100))})
+                ops.append({"op": "upsert", "n": n, "k": H("k%d-%d" % (n, rng.randrange(7))), "v": H("w%d" % rng.randrange(100))})
             if rng.random() < 0.3:
-                ops.append({"op": "delete", "n": n, "k": H("k%d-%d" % (n, rng.randrange(12)))})
+                ops.append({"op": "delete", "n": n, "k": H("k%d-%d" % (n, rng.randrange(7)))})
         # requests from everybody else to t, and t's own requests answered by the others: digests (both kinds) and
         # deltas from different senders are now in flight to t
         for o in others:
@@ -630,6 +634,21 @@ def expand_bursts(case, out):
     return {"id": case["id"] + "-seq", "nodes": case["nodes"], "ops": ops}
 
 
+def any_delta_cut(out):
+    from props import wire
+    for ob in out.get("obs") or []:
+        for pkt in ob["sent"]:
+            try:
+                kind, hdr, body = wire.decode_packet(bytes.fromhex(pkt["bytes"]))
+                if kind == "delta" and any(len(es) < h[b"entries"] for h, es in body):
+                    return True
+                if kind == "delta" and len(pkt["bytes"]) // 2 > 1300:
+                    return True
+            except Exception:
+                return True
+    return False
+
+
 def pkt_kinds(sent):
     return sorted((p["dst"], p["bytes"][:2]) for p in sent)
 
@@ -641,6 +660,7 @@ def burst_probe(pid, binary, wd, rng, n):
     seqs = [expand_bursts(c, o) for c, o in zip(cases, outs)]
     souts = run_world(binary, wd, seqs, tag="burstseq")
     viol, nb, npk, sizes = [], 0, 0, {}
+    ncutskip = 0
     for c, o, s, so in zip(cases, outs, seqs, souts):
         for op, ob in zip(c["ops"], o.get("obs") or []):
             if op["op"] == "serve_burst":
@@ -648,6 +668,9 @@ def burst_probe(pid, binary, wd, rng, n):
                 nb += 1; npk += k
                 sizes[str(k)] = sizes.get(str(k), 0) + 1
         why = None
+        if any_delta_cut(o) or any_delta_cut(so):
+            ncutskip += 1
+            continue            # a cut reply: the outcome depends on the map order of the digest (see gen_burst_case)
         if o.get("panic"):
             why = "the receive loop crashed or hung: " + o["panic"]
         elif so.get("panic"):
@@ -676,7 +699,7 @@ def burst_probe(pid, binary, wd, rng, n):
             viol.append({"what": "%s receive-loop probe: %s (history %s)" % (pid, why, c["id"]), "found_input": True,
                          "replay_obj": {"property": pid, "kind": "burst", "signature": "burst", "why": why, "case": c, "sequential": s}})
             break
-    return viol, {"histories": len(cases), "bursts": nb, "datagrams": npk, "burst_sizes": sizes}
+    return viol, {"histories": len(cases), "bursts": nb, "datagrams": npk, "burst_sizes": sizes, "skipped_because_a_reply_was_cut": ncutskip}
 
 
 def gen_round_case(rng, cid):
